@@ -379,7 +379,7 @@ pub fn run(ctx: &Ctx) -> Report {
         "E-ENUM: (a) every logger name over {a,b,:} up to the length bound, alone and after a valid logger, through build/build_lossy; \
          every input through three builder histories (one call per item / first item alone then the plural adder / plural adders only; 3-logger inputs rotate through them); \
          (b) every builder input: appender sequences over {x,y}, logger sequences over {a,a::b,'a:','',::a} with repetition, reference lists \
-         over {x,y,z(dangling)} on root and loggers; compared with the reference validity/lossy model, every returned Config installed and \
+         over {x,y,z(dangling)} on root and loggers; (c) appenders and loggers both named from {a,x}, references over {a,x,z}; compared with the reference validity/lossy model, every returned Config installed and \
          logged through. Non-trivial = input with at least one offending item",
     );
     // (a) names
@@ -486,6 +486,41 @@ pub fn run(ctx: &Ctx) -> Report {
         for (inp, (s, d)) in bad {
             rep.violation(s, d, input_json(&inp));
         }
+    }
+    // (c) one name pool for appenders and loggers: the two namespaces are independent, so a logger may
+    // be called like an appender, and a reference is valid only if an *appender* of that name exists
+    let pool = ["a", "x"];
+    let app_c = seqs(&pool, 2);
+    let mut ref_c = seqs(&["a", "x", "z"], 1);
+    ref_c.push(vec!["a".into(), "x".into()]);
+    ref_c.push(vec!["x".into(), "a".into()]);
+    let mut lseq_c: Vec<Vec<(String, Vec<String>)>> = vec![vec![]];
+    let mut fr_c: Vec<Vec<(String, Vec<String>)>> = vec![vec![]];
+    for _ in 0..2 {
+        let mut nx = vec![];
+        for sq in &fr_c {
+            for n in pool {
+                for r in &ref_c {
+                    let mut k = sq.clone();
+                    k.push((n.to_string(), r.clone()));
+                    nx.push(k);
+                }
+            }
+        }
+        lseq_c.extend(nx.iter().cloned());
+        fr_c = nx;
+    }
+    let inputs_c: Vec<Input> = app_c
+        .iter()
+        .flat_map(|a| ref_c.iter().map(move |r| (a, r)))
+        .flat_map(|(a, r)| lseq_c.iter().map(move |l| Input { appenders: a.clone(), root_refs: r.clone(), loggers: l.clone() }))
+        .collect();
+    let bad_c: Vec<(usize, (String, String))> = inputs_c.par_iter().enumerate().filter_map(|(k, i)| check_all_variants(i).map(|m| (k, m))).collect();
+    rep.add("evaluations", inputs_c.len() as u64);
+    rep.add("distinct_nontrivial", inputs_c.iter().filter(|i| !reference(i).offending.is_empty()).count() as u64);
+    rep.set("shared_name_pool_inputs", inputs_c.len() as u64);
+    for (k, (sg, d)) in bad_c.into_iter().take(50) {
+        rep.violation(sg, format!("[appenders and loggers named from one pool] {}", d), input_json(&inputs_c[k]));
     }
     rep.set("exhaustive", done == total_b);
     rep.sample(input_json(&Input {
